@@ -13,6 +13,21 @@ use std::time::Duration;
 
 pub fn run(ctx: &Ctx) -> i32 {
     let mon = Mon::new();
+    if ctx.mode.as_deref() == Some("stress") {
+        par_cases(ctx, &mon, "conc", 3, |cc, rng, l| {
+            concurrent(ctx, cc, rng, l);
+        });
+        return finish(ctx, &mon, Spec::new("exploration", "multi-thread concurrent mode only (sanitizer sub-run)").need("concurrent_reads_checked", 1000));
+    }
+    if ctx.mode.as_deref() == Some("seq") {
+        par_cases(ctx, &mon, "seq", 8, |cc, rng, l| {
+            for i in 0..40 {
+                let mut r2 = Rng::derive(rng.next_u64(), "c16", i);
+                block_on(sequential(cc, &mut r2, l, i));
+            }
+        });
+        return finish(ctx, &mon, Spec::new("exploration", "sequential mode only (sanitizer sub-run)").need("reads_compared_with_database", 1000));
+    }
     // ---- sequential mode
     let n = ctx.tier.pick(3000, 100_000);
     let chunks = 64u64;
@@ -28,10 +43,11 @@ pub fn run(ctx: &Ctx) -> i32 {
         let key_kind = (cc.idx % 3) as u8;
         let n_readers = 1 + (cc.idx / 3 % 2) as usize;
         let in_txn = cc.idx / 6 % 2 == 1;
-        let mut dfs = Dfs::new(ctx.tier.pick(2, 3));
+        let with_flush = cc.idx / 12 % 2 == 1;
+        let mut dfs = Dfs::new(ctx.tier.pick(2, 3) + with_flush as usize);
         let mut n = 0;
         loop {
-            controlled(key_kind, n_readers, in_txn, &mut dfs, l);
+            controlled(key_kind, n_readers, in_txn, with_flush, &mut dfs, l);
             n += 1;
             if !dfs.advance() || n >= ctx.tier.pick(600, 5000) {
                 break;
@@ -39,7 +55,7 @@ pub fn run(ctx: &Ctx) -> i32 {
         }
         let _ = rng.next_u64();
         if cc.idx < 2 {
-            l.sample(json!({"case": cc.id, "kind": "controlled read-fill", "key_kind": key_kind, "readers": n_readers, "writer_in_transaction": in_txn, "schedules": n}));
+            l.sample(json!({"case": cc.id, "kind": "controlled read-fill", "key_kind": key_kind, "readers": n_readers, "writer_in_transaction": in_txn, "concurrent_flush": with_flush, "schedules": n}));
         }
     });
     // ---- concurrent mode on a multi-thread runtime
@@ -370,7 +386,7 @@ fn summarize(r: &Option<DbRecord>) -> String {
 }
 
 /// One writer op and 1-2 reader ops on one cached manager, every order of entry/exit gates up to the bound.
-fn controlled(key_kind_idx: u8, n_readers: usize, writer_in_txn: bool, strategy: &mut dyn Strategy, l: &mut Local) {
+fn controlled(key_kind_idx: u8, n_readers: usize, writer_in_txn: bool, with_flush: bool, strategy: &mut dyn Strategy, l: &mut Local) {
     let key = match key_kind_idx {
         0 => Key::Node(0),
         1 => Key::Vs(1),
@@ -407,6 +423,13 @@ fn controlled(key_kind_idx: u8, n_readers: usize, writer_in_txn: bool, strategy:
                 reads.lock().unwrap().push(g);
             });
         }
+        if with_flush {
+            // a flush issued through the same manager while the read is underway
+            let m = mgr.clone();
+            r.client(9, async move {
+                m.flush_cache().await;
+            });
+        }
         let out = r.drive(strategy).await;
         db.ctl.set_gate(None);
         // quiescent: writer finished => database holds tag 2; every later read must return it
@@ -419,7 +442,7 @@ fn controlled(key_kind_idx: u8, n_readers: usize, writer_in_txn: bool, strategy:
     l.eval(1);
     l.count("controlled_schedules", 1);
     let overlap = (0..n_readers).any(|i| out.overlap(1, 2 + i as u32));
-    l.case_h(out.interleaving_hash() ^ (key_kind_idx as u64) << 56 ^ (writer_in_txn as u64) << 55, overlap);
+    l.case_h(out.interleaving_hash() ^ (key_kind_idx as u64) << 56 ^ (writer_in_txn as u64) << 55 ^ (with_flush as u64) << 54, overlap);
     if out.stuck {
         l.violation("C16:controlled-stuck", "controlled schedule got stuck", json!({"schedule": out.schedule()}));
         return;
@@ -434,7 +457,7 @@ fn controlled(key_kind_idx: u8, n_readers: usize, writer_in_txn: bool, strategy:
     }
     if after != truth {
         l.violation(
-            format!("C16:read-fill-race/{}/{}", key_kind(&key), if writer_in_txn { "commit" } else { "set" }),
+            format!("C16:read-fill-race/{}/{}{}", key_kind(&key), if writer_in_txn { "commit" } else { "set" }, if with_flush { "+flush" } else { "" }),
             format!("after writer and readers finished, a read through the manager returns {} but the database holds {} (a reader's late cache fill replaced the writer's entry)", summarize(&after), summarize(&truth)),
             json!({"key": format!("{key:?}"), "writer_in_transaction": writer_in_txn, "schedule": out.schedule(), "trace": out.trace.iter().map(|(t, d)| format!("{t}:{d}")).collect::<Vec<_>>()}),
         );
@@ -445,7 +468,10 @@ fn controlled(key_kind_idx: u8, n_readers: usize, writer_in_txn: bool, strategy:
 fn concurrent(ctx: &Ctx, cc: &CaseCtx, rng: &mut Rng, l: &mut Local) {
     let rt = tokio::runtime::Builder::new_multi_thread().worker_threads(8).enable_time().build().expect("rt");
     let seed = rng.next_u64();
-    let lifetime = *rng.pick(&[2u64, 5, 30_000]);
+    // no expiry in the concurrent mode: a stale read could otherwise be manufactured by nothing but a
+    // read whose response takes longer than the item lifetime on a loaded machine (the verdict must not
+    // depend on wall-clock time); expiry is exercised by the sequential mode
+    let lifetime = 30_000u64;
     let secs = ctx.tier.pick(2, 12);
     let keys = vec![Key::Node(0), Key::Node(1), Key::Vs(1), Key::Azks];
     type WriteLog = Vec<(u64, u64, u64)>; // (tag, t0, t1) of successful writes
@@ -453,7 +479,7 @@ fn concurrent(ctx: &Ctx, cc: &CaseCtx, rng: &mut Rng, l: &mut Local) {
     let (writes, reads): (Vec<WriteLog>, ReadLog) = rt.block_on(async {
         let db = XDb::new();
         *db.ctl.jitter.lock().unwrap() = Some(Rng::new(seed));
-        let mgr = StorageManager::new(db.clone(), Some(Duration::from_millis(lifetime)), None, Some(Duration::from_millis(2)));
+        let mgr = StorageManager::new(db.clone(), Some(Duration::from_millis(lifetime)), None, None);
         let clock = Arc::new(AtomicU64::new(1));
         let stop = Arc::new(AtomicBool::new(false));
         for (i, k) in keys.iter().enumerate() {
